@@ -149,11 +149,11 @@ def clauses(case, exp, got_list, root_filter=False):
         node = case["tree"].get(p)
         if len(got.get(p, [])) > 1:
             out.add("UNLISTED:scheduled_twice:" + p)      # repaired by 4d2e5a7 (dedup_renames); must not come back
-        elif node and node[0] == "l" and "--no-rename-files" in case["flags"] and p not in exp and len(got.get(p, [])) == 1:
-            out.add("no_rename_files_renames_symlinks")
+        elif node and node[0] == "l" and "--no-rename-files" in case["flags"] and p not in exp and got.get(p):
+            out.add("UNLISTED:symlink_renamed_under_no_rename_files:" + p)    # repaired by 4ad17ef; must not come back
         elif root_filter and node and node[0] == "l" and p in exp and not got.get(p) and \
                 os.path.normpath(os.path.join(os.path.dirname(p), node[1])) in case["roots"]:
-            out.add("symlink_to_root_treated_as_root")
+            out.add("UNLISTED:symlink_to_root_dropped:" + p)                  # repaired by ed3f0d7; must not come back
         elif len({st for _, st in occ}) > 1:
             out.add("two_styles_in_one_name")
         elif occ and not uniform_style(name, occ[0][1]):
